@@ -403,7 +403,7 @@ class Gen:
             return self.emit([31] + enc_path(p) + [len(d)] + d)
         if x < 0.995:
             return self.emit([32] + enc_path(self.some(self.files)))
-        return self.emit([30, self.pos_slot(), r.choice([0, 2, 5]), r.choice([1, 5, 8])])
+        return self.emit([30, self.pos_slot(), r.choice([0, 2, 5]), r.choice([0, 0, 1, 5, 8, 4294967296, 4294967299])])
 
     @staticmethod
     def wwin(w):
